@@ -347,6 +347,11 @@ impl<M: AlignMarker> Ctx<M> {
                     let uid = shadow().guard_created_on(tid, local);
                     if self.local_addr == 0 && !self.in_tls {
                         self.local_addr = local;
+                        let sh = shadow();
+                        if sh.plocal.len() <= tid {
+                            sh.plocal.resize(tid + 1, 0);
+                        }
+                        sh.plocal[tid] = local;
                     }
                     self.guards[a] = Some(GuardSlot { g, uid });
                 }
@@ -401,14 +406,15 @@ impl<M: AlignMarker> Ctx<M> {
                                     std::panic::resume_unwind(Box::new(InjectedPanic));
                                 }
                                 2 => {
+                                    // (not an op boundary: g2 is not a guard of the model)
                                     let g2 = circ::cs();
-                                    user_yield();
+                                    crate::sched::inner_yield();
                                     drop(g2);
                                 }
                                 3 => {
                                     let g2 = circ::cs();
                                     g2.flush();
-                                    user_yield();
+                                    crate::sched::inner_yield();
                                     drop(g2);
                                 }
                                 _ => {
@@ -468,7 +474,7 @@ impl<M: AlignMarker> Ctx<M> {
                         _ => {}
                     }
                     g.flush();
-                    user_yield();
+                    crate::sched::inner_yield();
                     sim().fault("panic_with_guard");
                     std::panic::resume_unwind(Box::new(InjectedPanic));
                 }));
@@ -1381,6 +1387,10 @@ pub fn run_thread<M: AlignMarker>(tid: usize, world: &'static World<M>, prog: &T
         }
     }
     crate::sched::set_op(prog.ops.len() as u32);
+    // from here on the participant may be finalized at any time: other threads stop looking at it
+    if let Some(p) = shadow().plocal.get_mut(tid) {
+        *p = 0;
+    }
     if prog.tls_mode != 0 {
         let tls_ops = prog.tls_ops.clone();
         let leak = prog.exit_mode == 1;
